@@ -728,3 +728,8 @@ def EXTRACT(repo):
 # proved equal to the record model in Props/SrcTieC18.lean)
 from . import srctie
 srctie.wire(globals(), 'C18')
+
+# --- source tie, state transformers (translator pass 5: every setter / update / integer-parameter constructor / Default regenerated from
+# /repo/src into Generated/SrcC18Mut.lean and proved equal to the record model in Props/SrcTieC18Mut.lean)
+from . import srctie
+srctie.wire_mut(globals(), 'C18')
